@@ -144,6 +144,12 @@ func init() {
 		},
 
 		// ----- strings -----
+		"strings.TrimLeft": func(in *Interp, fn *ssa.Function, a []Value) Value {
+			return in.trimCutset(a, "strings.TrimLeft", true, false)
+		},
+		"strings.TrimRight": func(in *Interp, fn *ssa.Function, a []Value) Value {
+			return in.trimCutset(a, "strings.TrimRight", false, true)
+		},
 		"strings.TrimSpace": func(in *Interp, fn *ssa.Function, a []Value) Value {
 			s := a[0].(*Str)
 			if s.kind == sConc {
@@ -1067,6 +1073,38 @@ func (in *Interp) toGoAny(v Value) (interface{}, bool) {
 		return x.f, true
 	}
 	return nil, false
+}
+
+// trimCutset: strings.Trim* with a concrete ASCII cutset
+func (in *Interp) trimCutset(a []Value, what string, left, right bool) Value {
+	subj, cut := a[0].(*Str), a[1].(*Str)
+	if cut.kind != sConc {
+		in.fail("%s with a symbolic cutset", what)
+	}
+	if subj.kind == sConc {
+		switch {
+		case left && right:
+			return concStr(strings.Trim(subj.conc, cut.conc))
+		case left:
+			return concStr(strings.TrimLeft(subj.conc, cut.conc))
+		default:
+			return concStr(strings.TrimRight(subj.conc, cut.conc))
+		}
+	}
+	for i := 0; i < len(cut.conc); i++ {
+		if cut.conc[i] >= 0x80 {
+			in.fail("%s with a non-ASCII cutset", what)
+		}
+	}
+	st := in.St
+	pred := func(b *sym.Term) *sym.Term {
+		ds := make([]*sym.Term, 0, len(cut.conc))
+		for i := 0; i < len(cut.conc); i++ {
+			ds = append(ds, st.Eq(b, st.Int(int64(cut.conc[i]))))
+		}
+		return st.Or(ds...)
+	}
+	return in.strTrimSides(subj, pred, what, left, right)
 }
 
 // builderWriter: the *strings.Builder behind an io.Writer argument (anything else is not modelled)
